@@ -108,6 +108,12 @@ class C01(Prop):
             for c in cs[: cap if tier == "quick" else cap * 4]:
                 c.meta = {"kind": "multicast-" + name}
                 out.append(c)
+        # two REAL threads at lock granularity (suite `coop`, see C10): the thread-safe combinators fed from two
+        # threads — the GLOBAL delivery order seen by the one subscriber must still be items* terminal?
+        from .. import coopgen as cg
+        cs = cg.sync_cases(tier, seed)
+        rng.shuffle(cs)
+        out += cs[: 5000 if tier == "quick" else 40000]
         return out
 
     def _multicast_oracle(self, case, lines):
@@ -160,6 +166,9 @@ class C01(Prop):
         return None
 
     def shrink_candidates(self, case):
+        if case.suite == "coop":
+            from .. import coopgen as cg
+            return cg.shrink_candidates(case)
         if case.suite in ("flatten", "groupby", "share"):
             out = []
             for i in range(len(case.events)):
@@ -170,6 +179,9 @@ class C01(Prop):
         return super().shrink_candidates(case)
 
     def signature(self, case, failure):
+        if case.suite == "coop":
+            from .. import coopgen as cg
+            return cg.signature(case, failure)
         if case.suite in ("flatten", "groupby", "share"):
             return f"{failure['kind']}|{case.suite}"
         return super().signature(case, failure)
@@ -178,10 +190,15 @@ class C01(Prop):
         return kinds(body)
 
     def compare_from(self, case):
+        if case.suite == "coop":
+            return len(case.events)
         # two subscriptions of one pipeline value (field `twosubs`) have no model: the oracle decides
         return len(case.events) if case.field("twosubs") else 0
 
     def oracle(self, case, lines, model_lines=None):
+        if case.suite == "coop":
+            from .. import coopgen as cg
+            return cg.sync_oracle(case, lines)
         if case.suite in ("flatten", "groupby", "share"):
             return self._multicast_oracle(case, lines)
         logs = ["", ""]
